@@ -53,9 +53,10 @@ MUTANTS = [
     {"id": "C13-revert-F9-future-timeout", "prop": "C13", "revert": "528fb13"},
     {"id": "C13-promise-notify-one", "prop": "C13", "edits": [
         R(PROMISE, "self._condition.notify_all()", "self._condition.notify()")]},
-    {"id": "C13-promise-wait-not-wait-for", "prop": "C13", "edits": [
-        R(PROMISE, "if self._condition.wait_for(lambda: self._is_delivered, timeout=timeout):",
-          "if self._is_delivered or self._condition.wait(timeout):")]},
+    # (wait() in place of wait_for() is behaviourally equivalent here: notify_all is only sent on delivery
+    #  and neither CPython's nor the sim Condition wakes spuriously - so it is not a mutant)
+    {"id": "C13-promise-timeout-returns-value-slot", "prop": "C13", "edits": [
+        R(PROMISE, "            else:\n                return timeout_val", "            else:\n                return self._value")]},
     {"id": "C13-promise-deliver-overwrites", "prop": "C13", "edits": [
         R(PROMISE, "            if not self._is_delivered:\n                self._is_delivered = True\n",
           "            if True:\n                self._is_delivered = True\n")]},
@@ -70,6 +71,29 @@ MUTANTS = [
     {"id": "C13-future-deref-ignores-timeout", "prop": "C13", "edits": [
         R(FUT, "            return self._future.result(timeout=timeout)\n        except _TimeoutError:",
           "            return self._future.result(timeout=None if timeout else timeout)\n        except _TimeoutError:")]},
+    # ---- C18
+    {"id": "C18-revert-order-independent-dispatch", "prop": "C18", "revert": ["57d3903"]},
+    {"id": "C18-revert-F8-snapshot-under-lock", "prop": "C18", "revert": ["57d3903", "425145c"]},
+    {"id": "C18-remove-method-keeps-cache", "prop": "C18", "edits": [
+        R(MULTI, "                self._methods = self._methods.dissoc(key)\n            self._reset_cache()",
+          "                self._methods = self._methods.dissoc(key)")]},
+    {"id": "C18-prefer-method-keeps-cache", "prop": "C18", "edits": [
+        R(MULTI, "            self._prefers = self._prefers.assoc(preferred_key, existing.cons(other_key))\n            self._reset_cache()",
+          "            self._prefers = self._prefers.assoc(preferred_key, existing.cons(other_key))")]},
+    {"id": "C18-no-hierarchy-check-on-fast-path", "prop": "C18", "edits": [
+        R(MULTI, "        if self._cached_hierarchy == self._hierarchy.deref():\n            cached_val", "        if True:\n            cached_val")]},
+    {"id": "C18-slow-path-does-not-reset-on-hierarchy-change", "prop": "C18", "edits": [
+        R(MULTI, "            if self._cached_hierarchy != hierarchy:\n                self._reset_cache(hierarchy)", "            if False:\n                self._reset_cache(hierarchy)")]},
+    {"id": "C18-isa-reads-live-hierarchy-in-slow-path", "prop": "C18", "edits": [
+        R(MULTI, "        if hierarchy is None:\n            hierarchy = self._hierarchy.deref()\n        return bool(self._isa.value(hierarchy, tag, parent))",
+          "        hierarchy = self._hierarchy.deref()\n        return bool(self._isa.value(hierarchy, tag, parent))")]},
+    {"id": "C18-default-method-ignored-when-cached-miss", "prop": "C18", "edits": [
+        R(MULTI, "            if best_method is None:\n                best_method = self._methods.val_at(self._default)\n",
+          "            if best_method is None and not matches:\n                best_method = self._cache.val_at(self._default)\n")]},
+    {"id": "C18-underive-keeps-descendants", "prop": "C18", "edits": [
+        R(CORE, "                   (make-hierarchy))))))\n\n;;;;;;;;;;;;;;;;;;\n;; Multimethods ;;", "                   (assoc (make-hierarchy) :descendants (:descendants h)))))))\n\n;;;;;;;;;;;;;;;;;;\n;; Multimethods ;;")]},
+    {"id": "C18-derive-forgets-transitive-ancestors", "prop": "C18", "edits": [
+        R(CORE, "                                   (apply conj parent-ancestors parent)", "                                   (apply conj #{} parent)")]},
     # ---- C11
     {"id": "C11-revert-F6-push-rollback", "prop": "C11", "revert": "FIX_F6"},
     {"id": "C11-pop-forgets-var-pop", "prop": "C11", "edits": [
@@ -123,11 +147,18 @@ def make_scratch(name):
 
 def apply_mutant(m, d):
     if "revert" in m:
-        c = _resolve_commit(m["revert"])
-        diff = _git("show", "--format=", c).stdout
-        r = subprocess.run(["patch", "-R", "-p1", "-d", d], input=diff, capture_output=True, text=True)
-        if r.returncode != 0:
-            raise RuntimeError(f"revert of {c} does not apply: {r.stdout} {r.stderr}")
+        revs = m["revert"] if isinstance(m["revert"], list) else [m["revert"]]
+        for tag in revs:
+            c = _resolve_commit(tag)
+            diff = _git("show", "--format=", c).stdout
+            r = subprocess.run(["patch", "-R", "-p1", "-d", d], input=diff, capture_output=True, text=True)
+            if r.returncode != 0:
+                raise RuntimeError(f"revert of {c} does not apply: {r.stdout} {r.stderr}")
+            for ln in diff.splitlines():
+                if ln.startswith("+++ b/"):
+                    p = os.path.join(d, ln[6:])
+                    st = os.stat(p)
+                    os.utime(p, (st.st_atime, st.st_mtime + 11))
         return
     for e in m["edits"]:
         p = os.path.join(d, e["file"])
